@@ -9,7 +9,7 @@ ID = 'C07'
 LEVEL = 'exploration'
 RULE = (
     'Generated directed forwarding graphs over 2-5 buses (chains, diamonds, cycles, self-loops, several wildcard and '
-    'type-specific forwards per bus), any entry bus, timed handlers and a passive probe on every bus, optional nested '
+    'type-specific forwards per bus, bus names that are substrings of each other), any entry bus, timed handlers and a passive probe on every bus, optional nested '
     'dispatch/awaits and concurrent traffic, re-dispatch of in-flight events to other buses. Oracle = graph '
     'reachability per event type: the set of buses that processed the event equals the reachable set, each handler '
     'once, the run terminates, event_path = buses in order of arrival each once, same object everywhere, results of '
@@ -79,7 +79,15 @@ def _sc(draw):
                 ops.append(['yield', draw(st.integers(1, 3))])
         actors.append(ops)
     # with bounded histories the queue (50) / backlog (100) limits are active: keep far below them (rejection is C14's subject)
-    return {'buses': buses, 'fwd': fwd, 'handlers': handlers, 'actors': actors, 'maxdepth': maxdepth, 'cap': 24 if small_hist else 80, 'warm': draw(st.booleans())}
+    sc_names = None
+    if draw(st.integers(0, 4)) == 0:
+        # bus names that contain each other (Orders / OrdersArchive, Bus1 / Bus10): buses must still be told apart exactly
+        pool = draw(st.permutations(['Bus1', 'Bus10', 'Bus', 'Bus100', 'OrdersArchive', 'Orders', 'Ord']))
+        sc_names = list(pool[:nb])
+    out = {'buses': buses, 'fwd': fwd, 'handlers': handlers, 'actors': actors, 'maxdepth': maxdepth, 'cap': 24 if small_hist else 80, 'warm': draw(st.booleans())}
+    if sc_names:
+        out['names'] = sc_names
+    return out
 
 
 def budget(tier):
